@@ -19,6 +19,13 @@
 //	  after c: s<t> calls coalescer.submit directly on the closed coalescer
 //
 // output: cap=<n> | S <t.q=res ...> | B <ids:outcome ...> | H <ids ...> | L <ids>
+//
+//	fq <size> op...    the failure fan-out of actor/remote_server.go on a real, started actor system:
+//	  e<n>  enqueueCoalescedFailure with a failed batch of n messages (ids count up from 0)
+//	  d / u shuttingDown := true / false
+//	  at the end the real drainCoalescedFailures goroutine runs over the queue; the dead letters are
+//	  read from the system's event stream
+//	output: cap=<real queue capacity> q=<hand-offs queued> dead=<ids in publication order>
 package main
 
 import (
@@ -34,6 +41,12 @@ import (
 
 	"google.golang.org/protobuf/proto"
 	"google.golang.org/protobuf/types/known/durationpb"
+	"google.golang.org/protobuf/types/known/wrapperspb"
+
+	"github.com/tochemey/goakt/v4/actor"
+	"github.com/tochemey/goakt/v4/eventstream"
+	"github.com/tochemey/goakt/v4/log"
+	"github.com/tochemey/goakt/v4/remote"
 
 	gerrors "github.com/tochemey/goakt/v4/errors"
 	"github.com/tochemey/goakt/v4/internal/address"
@@ -300,8 +313,122 @@ func mapIDs(s []string) []string {
 	return out
 }
 
+var (
+	fqOnce sync.Once
+	fqSys  actor.ActorSystem
+	fqFan  actor.VerifFanout
+	fqSub  eventstream.Subscriber
+	fqErr  string
+	fqPort int
+	fqCase int
+)
+
+func fqStart() {
+	ctx := context.Background()
+	fqPort = inet.Get(1)[0]
+	sys, err := actor.NewActorSystem("c27fq", actor.WithLogger(log.DiscardLogger), actor.WithRemote(remote.NewConfig("127.0.0.1", fqPort)))
+	if err == nil {
+		err = sys.Start(ctx)
+	}
+	if err != nil {
+		fqErr = err.Error()
+		return
+	}
+	time.Sleep(200 * time.Millisecond)
+	fan, ok := actor.VerifFanoutOf(sys)
+	if !ok {
+		fqErr = "no remoting"
+		return
+	}
+	sub, err := sys.Subscribe()
+	if err != nil {
+		fqErr = err.Error()
+		return
+	}
+	fqSys, fqFan, fqSub = sys, fan, sub
+}
+
+func handleFQ(f []string) string {
+	fqOnce.Do(fqStart)
+	if fqErr != "" {
+		return "system-error " + fqErr
+	}
+	size, err := strconv.Atoi(f[1])
+	if err != nil || size < 0 || size > 1024 {
+		return "bad-case"
+	}
+	fqCase++
+	capv := fqFan.RealCap()
+	fqFan.Install(size)
+	ser := remote.NewProtoSerializer()
+	recv := address.New("nobody", "c27fq", "127.0.0.1", fqPort).String()
+	next, accepted := 0, 0
+	for _, op := range f[2:] {
+		switch {
+		case op == "d":
+			fqFan.SetShuttingDown(true)
+		case op == "u":
+			fqFan.SetShuttingDown(false)
+		case op[0] == 'e':
+			n, err := strconv.Atoi(op[1:])
+			if err != nil || n < 0 || n > 64 {
+				fqFan.SetShuttingDown(false)
+				fqFan.Drain()
+				return "bad-case"
+			}
+			msgs := make([]*internalpb.RemoteMessage, n)
+			for i := range msgs {
+				payload, _ := ser.Serialize(wrapperspb.String(fmt.Sprintf("%d/%d", fqCase, next)))
+				next++
+				msgs[i] = &internalpb.RemoteMessage{Sender: address.New("s", "c27fq", "127.0.0.1", fqPort).String(), Receiver: recv, Message: payload}
+			}
+			before := fqFan.QueueLen()
+			fqFan.Enqueue("127.0.0.1:1", msgs)
+			if fqFan.QueueLen() > before {
+				accepted += n
+			}
+		default:
+			fqFan.SetShuttingDown(false)
+			fqFan.Drain()
+			return "bad-case"
+		}
+	}
+	q := fqFan.QueueLen()
+	fqFan.SetShuttingDown(false)
+	fqFan.Drain()
+	// the dead-letter actor publishes asynchronously: wait for the expected number of events
+	var dead []string
+	deadline := time.Now().Add(10 * time.Second)
+	prefix := strconv.Itoa(fqCase) + "/"
+	for len(dead) < accepted && time.Now().Before(deadline) {
+		for m := range fqSub.Iterator() {
+			if dl, ok := m.Payload().(*actor.Deadletter); ok {
+				if v, ok := dl.Message().(*wrapperspb.StringValue); ok && strings.HasPrefix(v.GetValue(), prefix) {
+					dead = append(dead, strings.TrimPrefix(v.GetValue(), prefix))
+				}
+			}
+		}
+		if len(dead) < accepted {
+			time.Sleep(2 * time.Millisecond)
+		}
+	}
+	// a little grace for dead letters that should NOT exist
+	time.Sleep(5 * time.Millisecond)
+	for m := range fqSub.Iterator() {
+		if dl, ok := m.Payload().(*actor.Deadletter); ok {
+			if v, ok := dl.Message().(*wrapperspb.StringValue); ok && strings.HasPrefix(v.GetValue(), prefix) {
+				dead = append(dead, strings.TrimPrefix(v.GetValue(), prefix))
+			}
+		}
+	}
+	return fmt.Sprintf("cap=%d q=%d dead=%s", capv, q, strings.Join(dead, ","))
+}
+
 func handle(line string) string {
 	f := vlib.Fields(line)
+	if len(f) >= 2 && f[0] == "fq" {
+		return handleFQ(f)
+	}
 	if len(f) < 3 || f[0] != "co" {
 		return "bad-case"
 	}
